@@ -21,23 +21,77 @@ func init() {
 	})
 }
 
-// errorExceptions: function → callee → reason (H9 named exceptions).
-var errorExceptions = map[string]map[string]string{
-	"(*slug.Packer).Unpack": {
-		"os.Chmod": "transient 0600 before the retried os.Create: its failure resurfaces as the create error, which is returned",
-	},
-	"slug.matchIgnoreRules": {
-		"github.com/hashicorp/go-slug/internal/ignorefiles.(Ruleset).Excludes": "documented: 'invalid rules are ignored'; the result still considers all valid rules",
-	},
-	"(*sourcebundle.Builder).ensureRemotePackage": {
-		"os.Lstat": "failure means the final directory is not there yet; the following os.Rename reports any real problem and its error is returned",
-	},
-	"ignorefiles.LoadPackageIgnoreRules": {
-		"os.Stat": "failure falls through to os.Open of the same path, whose error is handled (not-exist → defaults, else returned)",
-	},
-	"slug.parseIgnoreFile": {
-		"os.Stat": "failure falls through to os.Open of the same path, whose error is handled (documented fallback to the default rules)",
-	},
+// errorIdiom recognises the enumerated, structurally checked idioms under
+// which an error may stay unreported (H9). They are keyed by what the code
+// does, not by where it lives, so moving the code into a helper changes nothing.
+func (p *Prog) errorIdiom(fn *ssa.Function, ci ssa.CallInstruction, ev ssa.Value, nonNil []Edge) string {
+	o := calleeObj(ci)
+	cn := fullName(o)
+	args := ci.Common().Args
+	switch {
+	case strings.HasSuffix(cn, "/ignorefiles.(Ruleset).Excludes") || strings.HasSuffix(cn, "/ignorefiles.(Ruleset).Includes"):
+		return "documented by Ruleset.Excludes: callers may ignore the error, the result still considers every valid rule"
+	case cn == "os.Chmod" && len(args) == 2:
+		// transient mode before a retried create of the same path: the create's error is what counts
+		if _, isC := constInt(args[1]); isC {
+			ok, _ := mustPassOK(ci, func(in ssa.Instruction) bool {
+				c2, ok := in.(*ssa.Call)
+				if !ok {
+					return false
+				}
+				o2 := calleeObj(c2)
+				return (isFunc(o2, "os", "Create") || isFunc(o2, "os", "OpenFile")) && sameLoc(c2.Call.Args[0], args[0]) || (isFunc(o2, "os", "Create") || isFunc(o2, "os", "OpenFile")) && canon(c2.Call.Args[0]) == canon(args[0])
+			}, nil, nil)
+			if ok {
+				return "transient constant mode before a retried create of the same path: a failure resurfaces as the create's error, which is consumed"
+			}
+		}
+	case cn == "path/filepath.Rel":
+		// the error is one conjunct of a containment decision: "cannot be made relative" counts as "not inside"
+		for _, k := range findContainments(fn) {
+			if k.At == ssa.Instruction(ci.(*ssa.Call)) && len(k.Conj) > 0 && len(k.Conj[0]) > 0 {
+				return "part of a containment decision (filepath.Rel failing means 'not inside'); the decision's edges are checked by the containment rules"
+			}
+		}
+	case (cn == "os.Stat" || cn == "os.Lstat") && len(nonNil) > 0:
+		// a probe: on failure control falls through to another filesystem call on the same path whose error is consumed
+		all := true
+		for _, e := range nonNil {
+			first := e.To().Instrs[0]
+			pass := func(in ssa.Instruction) bool {
+				c2, ok := in.(*ssa.Call)
+				if !ok {
+					return false
+				}
+				if cls, _ := classifyFS(calleeObj(c2)); cls != "sink" && cls != "readonly" {
+					return false
+				}
+				uses := false
+				for _, a := range c2.Call.Args {
+					if sameLoc(a, args[0]) || canon(a) == canon(args[0]) {
+						uses = true
+					}
+				}
+				if !uses {
+					return false
+				}
+				e2 := errValueOf(c2)
+				if e2 == nil {
+					return false
+				}
+				u := p.errorUses(fn, e2)
+				return u.Returned || u.PassedOn || len(u.Compared) > 0
+			}
+			ok, _ := mustPassFromBlock(first, pass)
+			if !ok {
+				all = false
+			}
+		}
+		if all {
+			return "a probe: when it fails, the next filesystem call on the same path reports the problem and its error is consumed"
+		}
+	}
+	return ""
 }
 
 // useful: does the error value reach something that reports it?
@@ -201,10 +255,8 @@ func ruleC12Errors(c *Checker) {
 				ev = errValueOf(call)
 			}
 			exc := ""
-			if m, ok := errorExceptions[name]; ok {
-				exc = m[cn]
-			}
 			if ev == nil || ev.Referrers() == nil || len(*ev.Referrers()) == 0 {
+				exc = p.errorIdiom(fn, ci, ev, nil)
 				// dropped
 				switch {
 				case isReadOnlyClose(ci):
@@ -212,13 +264,16 @@ func ruleC12Errors(c *Checker) {
 				case isStderrPrint(ci):
 					c.passTrivial(R, name, construct, pos, "accepted idiom: diagnostic print to os.Stderr")
 				case exc != "":
-					c.passTrivial(R, name, construct, pos, "named exception: "+exc)
+					c.passTrivial(R, name, construct, pos, "enumerated idiom: "+exc)
 				default:
 					c.fail(R, name, construct, pos, "the error result of "+cn+" is dropped: a failure here is not reported to the caller")
 				}
 				continue
 			}
 			u := p.errorUses(fn, ev)
+			if !(u.Returned || u.PassedOn) {
+				exc = p.errorIdiom(fn, ci, ev, u.Compared)
+			}
 			switch {
 			case u.Returned || u.PassedOn:
 				c.pass(R, name, construct, pos, "the error flows to a return value, a wrapper or a callback")
@@ -232,19 +287,19 @@ func ruleC12Errors(c *Checker) {
 				if all {
 					c.pass(R, name, construct, pos, "compared with nil; the non-nil edge reports")
 				} else if exc != "" {
-					c.passTrivial(R, name, construct, pos, "named exception: "+exc)
+					c.passTrivial(R, name, construct, pos, "enumerated idiom: "+exc)
 				} else {
 					c.fail(R, name, construct, pos, "the error of "+cn+" is tested but its non-nil edge neither returns an error, records a diagnostic nor panics")
 				}
 			case u.Inspected:
 				if exc != "" {
-					c.passTrivial(R, name, construct, pos, "named exception: "+exc)
+					c.passTrivial(R, name, construct, pos, "enumerated idiom: "+exc)
 				} else {
 					c.fail(R, name, construct, pos, "the error of "+cn+" is only inspected (IsNotExist/sentinel) and otherwise ignored")
 				}
 			default:
 				if exc != "" {
-					c.passTrivial(R, name, construct, pos, "named exception: "+exc)
+					c.passTrivial(R, name, construct, pos, "enumerated idiom: "+exc)
 				} else {
 					c.fail(R, name, construct, pos, "the error result of "+cn+" is not used")
 				}
